@@ -155,15 +155,25 @@ def r3_is_endgame(ctx):
     ctx.touch(name)
     rows = []
     atoms = []
+    expanded = []
     for o in outs:
-        if o.kind != 'return' or not is_const(o.value):
-            ctx.ob(rule, name, 'boolean rows only', False, found=show(o.value))
-            return
+        if o.kind != 'return':
+            continue
+        if is_const(o.value):
+            expanded.append((list(o.conds), bool(o.value[1])))
+        else:
+            # a row whose value is itself a test: split it into the two rows it stands for
+            v = o.value
+            neg = False
+            while v[0] == 'un' and v[1] == 'Not':
+                v = v[2]
+                neg = not neg
+            expanded.append((list(o.conds) + [(v, 1)], not neg))
+            expanded.append((list(o.conds) + [(v, 0)], neg))
+    for conds_, value_ in expanded:
         r = {}
-        for a, v in o.conds:
+        for a, v in conds_:
             tv = 1 if is_true(v) else (0 if is_false(v) else None)
-            if a[0] != 'bin' and tv is not None and not (v in (0, 1)):
-                pass
             # atoms that are integer tests `x == 0` / `x != 0`
             if tv is None:
                 ctx.ob(rule, name, 'unrecognised atom value', False, found=show_cond((a, v)))
@@ -171,7 +181,7 @@ def r3_is_endgame(ctx):
             r[a] = tv
             if a not in atoms:
                 atoms.append(a)
-        rows.append((r, bool(o.value[1])))
+        rows.append((r, value_))
     # atoms never consulted (short-circuit) are added as don't-cares so that the table can be mirrored
     for a in list(atoms):
         if swap_colours(a) not in atoms:
